@@ -423,7 +423,9 @@ void WorldQ::on_send_event(const Event &e) {
           std::string who = gt == std::string::npos ? "" : s.substr(1, gt - 1);
           GRcpt *r = nullptr;
           for (auto &x : m->rc) if (!x.marked && !x.noted && (x.last_verdict == 'D' || x.last_verdict == 'Z')) { if (x.addr == who || (x.addr.size() > who.size() && x.addr.compare(x.addr.size() - who.size(), who.size(), who) == 0)) { r = &x; break; } }
-          if (!r) for (auto &x : m->rc) if (!x.marked && !x.noted && (x.last_verdict == 'D' || x.last_verdict == 'Z')) { r = &x; break; }
+          // (a recipient attempted again after a crash that lost its mark gets a second paragraph: that is the same recipient, not somebody else's note)
+          bool known_name = false; for (auto &x : m->rc) if (x.addr == who || (x.addr.size() > who.size() && x.addr.compare(x.addr.size() - who.size(), who.size(), who) == 0)) known_name = true;
+          if (!r && !known_name) for (auto &x : m->rc) if (!x.marked && !x.noted && (x.last_verdict == 'D' || x.last_verdict == 'Z')) { r = &x; break; }
           if (r) { r->noted = true; r->note_seq = ++note_counter; k->probe("bounce_note"); }
         }
       }
